@@ -33,45 +33,19 @@ def lean_ch(ch):
 def run_lean(seed):
     """compile lemmas/C03.lean + generated agreement examples; returns (ok, obligations, detail, secs)"""
     from contracts.common import Num
-    src = open(LEAN_FILE, encoding="utf-8").read()
-    bad = [w for w in ("sorry", "admit", "axiom ", "native_decide", "unsafe ") if re.search(r"\b" + re.escape(w.strip()) + r"\b", src)]
+    from props import leanrun
     rnd = random.Random(seed)
     examples = []
     for _ in range(12):
         s = "".join(rnd.choice("0123456789ABCDEFGHIJKLMNOPQRSTUVWXYZ") for _ in range(rnd.randrange(1, 14)))
         examples.append(f"example : num [{', '.join(lean_ch(c) for c in s)}] = {Num(s)} := by decide")
-    gen = src + "\n\n-- generated: the Python spec function Num and the Lean `num` agree on sampled vectors\n" + \
-        "\n".join(examples) + "\n" + "\n".join(f"#print axioms {t}" for t in THEOREMS) + "\n"
-    d = tempfile.mkdtemp(prefix="c03lean")
-    t0 = time.time()
-    try:
-        path = os.path.join(d, "C03gen.lean")
-        open(path, "w", encoding="utf-8").write(gen)
-        out = subprocess.run(["lake", "env", "lean", path], cwd=MATHLIB, capture_output=True, text=True, timeout=1500)
-        text = out.stdout + out.stderr
-    except (subprocess.TimeoutExpired, OSError) as ex:
-        return None, [], f"lean did not run: {ex}", time.time() - t0
-    finally:
-        shutil.rmtree(d, ignore_errors=True)
-    secs = time.time() - t0
-    errors = [ln for ln in text.splitlines() if ": error" in ln or "error:" in ln]
-    axioms = {}
-    for m in re.finditer(r"'([\w.]+)' depends on axioms: \[([^\]]*)\]|'([\w.]+)' does not depend on any axioms", text):
-        if m.group(1):
-            axioms[m.group(1)] = {a.strip() for a in m.group(2).split(",")}
-        else:
-            axioms[m.group(3)] = set()
-    obls = []
-    for t in THEOREMS:
-        ok = t in axioms and axioms[t] <= ALLOWED_AXIOMS and not errors and not bad
-        obls.append(dict(name=f"lean: theorem {t} elaborates without sorry (axioms: {sorted(axioms.get(t, ['?']))})",
-                         status="discharged" if ok else "undecided", backend="lean4+mathlib", secs=round(secs / len(THEOREMS), 2),
-                         witness=None, detail="" if ok else (errors[:3] or bad or ["theorem not reported"]).__repr__(),
-                         kind="vc"))
-    obls.append(dict(name=f"lean: Python Num and Lean num agree on {len(examples)} generated vectors (by decide)",
-                     status="discharged" if not errors else "undecided", backend="lean4+mathlib", secs=0.0,
-                     witness=None, detail="" if not errors else repr(errors[:3]), kind="vc"))
-    return (not errors and not bad), obls, text[-600:], secs
+    extra = "-- generated: the Python spec function Num and the Lean `num` agree on sampled vectors\n" + "\n".join(examples)
+    ok, obls, text, secs = leanrun.run(LEAN_FILE, THEOREMS, extra)
+    if ok is not None:
+        obls.append(dict(name=f"lean: Python Num and Lean num agree on {len(examples)} generated vectors (by decide)",
+                         status="discharged" if ok else "undecided", backend="lean4+mathlib", secs=0.0,
+                         witness=None, detail="" if ok else text[-300:], kind="vc"))
+    return ok, obls, text, secs
 
 
 def mutations(s):
